@@ -19,6 +19,7 @@ package cli
 import (
 	"errors"
 	"strings"
+	"unicode/utf8"
 
 	"github.com/cosmos/btcutil/base58"
 	"github.com/ethereum/go-ethereum/common"
@@ -30,6 +31,15 @@ func parseAddress(address string) ([]byte, error) {
 	if strings.HasPrefix(address, "0x") {
 		bz := common.FromHex(address)
 		return leftPadBytes(bz)
+	}
+
+	// base58.Decode indexes a 256-entry table by rune and panics on any
+	// character beyond it (and on invalid UTF-8). No such character is a
+	// base58 digit, so the input decodes to nothing, like any other invalid one.
+	for i := 0; i < len(address); i++ {
+		if address[i] >= utf8.RuneSelf {
+			return leftPadBytes(nil)
+		}
 	}
 
 	bz := base58.Decode(address)
